@@ -112,6 +112,142 @@ def specRow (lab : List Bool) (r xo : List β) : Bool :=
 
 end spec
 
+/-! ### the Spec oracle when provenance is only partly observable
+
+A partly inbred parent carries the same allele on both chromosome copies at some markers; there the copy a
+gamete cell came from cannot be read off.  `obs[j] = some p`: the cell at marker j is seen to come from
+copy p; `none`: both copies carry that allele.  The oracle tracks the SET of copies the gamete can be on
+(a pair of flags: "can be on copy 0", "can be on copy 1"): the comparison of the gamete's own draw with the
+stored probability moves the set (hit: swap; miss: stay; exact tie with a positive probability — an event of
+probability zero — either), an observation intersects it.  The row passes iff the set never becomes empty.
+With every marker observed this is `specRow` (theorem `specRowObs_all_observed`). -/
+section specobs
+variable {β : Type} [LT β] [DecidableLT β] [DecidableEq β] [OfNat β 0]
+
+/-- the set of possible copies after the comparison at one marker -/
+def nfaMove (s : Bool × Bool) (r x : β) : Bool × Bool :=
+  if r < x then (s.2, s.1) else if x < r then s else if x = 0 then s else (s.1 || s.2, s.1 || s.2)
+
+/-- intersect with what is seen at the marker -/
+def nfaSee (s : Bool × Bool) : Option Bool → Bool × Bool
+  | none => s
+  | some false => (s.1, false)
+  | some true => (false, s.2)
+
+def specObsFrom : Bool × Bool → List (Option Bool) → List β → List β → Bool
+  | s, [], [], [] => s.1 || s.2
+  | s, o :: os, r :: rs, x :: xs => specObsFrom (nfaSee (nfaMove s r x) o) os rs xs
+  | _, _, _, _ => false
+
+/-- one gamete with partly observable provenance (the gamete is on copy 0 before marker 0) -/
+def specRowObs (obs : List (Option Bool)) (r xo : List β) : Bool := specObsFrom (true, false) obs r xo
+
+/-- what can be seen of a copy sequence `lab` in a parent that is heterozygous exactly where `het` is true -/
+def seen : List Bool → List Bool → List (Option Bool)
+  | h :: hs, p :: ps => (if h then some p else none) :: seen hs ps
+  | _, _ => []
+
+end specobs
+
+/-! ### reading provenance off a gamete -/
+section observe
+variable {α : Type} [BEq α]
+
+/-- markers at which the two copies of the parent differ -/
+def hetMask : List α → List α → List Bool
+  | a :: r0, b :: r1 => (!(a == b)) :: hetMask r0 r1
+  | _, _ => []
+
+/-- what can be seen of the copies a gamete `g` was read from: cell j must be one of the two parental cells at
+    j; where they differ the copy is seen (`some`), where the parent is homozygous it is not (`none`); the
+    whole result is `none` when a cell is neither parental allele or the lengths differ -/
+def observeRow : List α → List α → List α → Option (List (Option Bool))
+  | [], [], [] => some []
+  | a :: r0, b :: r1, c :: g =>
+    match (if a == b then (if c == a then some none else none)
+           else if c == a then some (some false) else if c == b then some (some true) else none),
+          observeRow r0 r1 g with
+    | some o, some os => some (o :: os)
+    | _, _ => none
+  | _, _, _ => none
+
+end observe
+
+/-! ### the second copy of the code: pybrops/core/util/mate.py and its use by the EMBV matrix -/
+section dense
+variable {α : Type} {β : Type} [LT β] [DecidableLT β]
+
+/-- literal transcription of the loop of `dense_meiosis` (core/util/mate.py l.66-80): the same statements
+    as `mat_meiosis`, kept as a definition of its own so that the duplicate is tied to the source by its
+    own correspondence run and to `segLoop` by a theorem (`denseSegLoop_eq_segLoop`) -/
+def denseSegLoop (h0 h1 : List α) : Nat → Nat → List Nat → List α
+  | stix, phase, [] => (if phase = 1 then h1 else h0).drop stix
+  | stix, phase, spix :: rest =>
+      ((if phase = 1 then h1 else h0).drop stix).take (spix - stix) ++ denseSegLoop h0 h1 spix (1 - phase) rest
+
+/-- one gamete of `dense_meiosis`: `xoix = flatnonzero(rnd[i] < xoprob); phase = 0; stix = 0` -/
+def denseRow (h0 h1 : List α) (r xo : List β) : List α :=
+  denseSegLoop h0 h1 0 0 (Np.flatnonzero (xoMask r xo))
+
+/-- `dense_meiosis(geno, sel, xoprob, rng)` -/
+def denseMeiosis (geno : List (List (List α))) (sel : List Nat) (xo : List β) (rnd : List (List β)) :
+    Except String (List (List α)) :=
+  match geno with
+  | g0 :: g1 :: _ =>
+    if rnd.length != sel.length then .error "draws" else
+    (List.zip sel rnd).mapM (fun sr =>
+      match g0[sr.1]?, g1[sr.1]? with
+      | some h0, some h1 =>
+        if h0.length != xo.length || h1.length != xo.length then .error "shape"
+        else if sr.2.length != xo.length then .error "draws"
+        else .ok (denseRow h0 h1 sr.2 xo)
+      | _, _ => .error "index")
+  | _ => .error "shape"
+
+/-- `dense_dh` -/
+def denseDH (geno : List (List (List α))) (sel : List Nat) (xo : List β) (rnd : List (List β)) :
+    Except String (List (List (List α))) := do
+  let g ← denseMeiosis geno sel xo rnd
+  pure [g, g]
+
+/-- `dense_cross` -/
+def denseCross (fgeno mgeno : List (List (List α))) (fsel msel : List Nat) (xo : List β)
+    (rndF rndM : List (List β)) : Except String (List (List (List α))) := do
+  let f ← denseMeiosis fgeno fsel xo rndF
+  let m ← denseMeiosis mgeno msel xo rndM
+  pure [f, m]
+
+/-- the replicate loop of `DenseExpectedMaximumBreedingValueMatrix.from_gmod` for taxon `i`:
+    `for j in range(nrep[i]): mat = dense_dh(geno, numpy.repeat(i, nprogeny[i]), vrnt_xoprob, global_prng)`;
+    returns the doubled-haploid matrices in call order and the draws not yet consumed -/
+def embvTaxon (geno : List (List (List α))) (xo : List β) (i np : Nat) :
+    Nat → List (List (List β)) → Except String (List (List (List (List α))) × List (List (List β)))
+  | 0, d => .ok ([], d)
+  | _ + 1, [] => .error "draws"
+  | k + 1, r :: d => do
+    let m ← denseDH geno (List.replicate np i) xo r
+    let (ms, d') ← embvTaxon geno xo i np k d
+    pure (m :: ms, d')
+
+/-- the taxon loop of `from_gmod`: `for i in range(ntaxa)` with `nprogeny[i]`, `nrep[i]` -/
+def embvFrom (geno : List (List (List α))) (xo : List β) :
+    Nat → List Nat → List Nat → List (List (List β)) →
+      Except String (List (List (List (List α))) × List (List (List β)))
+  | _, [], [], d => .ok ([], d)
+  | i, np :: nps, nr :: nrs, d => do
+    let (ms, d') ← embvTaxon geno xo i np nr d
+    let (rest, d'') ← embvFrom geno xo (i + 1) nps nrs d'
+    pure (ms ++ rest, d'')
+  | _, _, _, _ => .error "shape"
+
+/-- all doubled haploids generated by `from_gmod`; every recorded draw matrix must be consumed -/
+def embvDH (geno : List (List (List α))) (xo : List β) (nprogeny nrep : List Nat)
+    (draws : List (List (List β))) : Except String (List (List (List (List α)))) := do
+  let (ms, rest) ← embvFrom geno xo 0 nprogeny nrep draws
+  if rest.isEmpty then pure ms else .error "draws"
+
+end dense
+
 /-! ### how many draw matrices a mating protocol requests -/
 
 /-- row counts of the successive `rng.uniform(0, 1, (rows, nvrnt))` calls made by `<Protocol>.mate()`:
@@ -228,6 +364,23 @@ def pairProb (xs : List α) (i j : Nat) : α := oddProb ((xs.drop (i + 1)).take 
 
 /-- closed form: marker j comes from copy 1 -/
 def phaseProb (xs : List α) (j : Nat) : α := oddProb (xs.take (j + 1))
+
+/-! ### two generations: a gamete of an individual whose own two copies are independent gametes of one
+    (grand)parent — a selfed progeny of a selfed plant, a doubled haploid of a selfed hybrid, … -/
+
+/-- which copy of the grandparent is carried at marker k: the last meiosis (mask `a`) reads copy
+    `phases a [k]` of the parent, and that copy is itself the gamete with mask `b0` (copy 0) or `b1`
+    (copy 1) of the grandparent -/
+def lab2 (a b0 b1 : List Bool) (k : Nat) : Bool :=
+  if (phases a).getD k false then (phases b1).getD k false else (phases b0).getD k false
+
+/-- closed form: markers i < j of such a gamete carry different grandparental copies.  With
+    `r = pairProb i j`, `u = phaseProb i`, `v = phaseProb j`: both markers read the same parental copy
+    (probability 1 - r) and that copy recombined (r), or they read different parental copies (r), which are
+    independent gametes (u (1 - v) + (1 - u) v) -/
+def pairProb2 (xs : List α) (i j : Nat) : α :=
+  (1 - pairProb xs i j) * pairProb xs i j +
+  pairProb xs i j * (phaseProb xs i * (1 - phaseProb xs j) + (1 - phaseProb xs i) * phaseProb xs j)
 
 /-- expectation over the uniform draws themselves: every draw takes each value of `pts` with equal
     weight, independently per marker, and is compared with `<` against the stored probability -/
